@@ -45,7 +45,7 @@ __CPROVER_assigns(self->norms);
 double g_delta0;       /* ghost: delta_ as given to Execute */
 #define OffsetPolygon(s_, g_, p_) OffsetPolygon__p(s_, &(g_), p_)
 void OffsetPolygon__p(ClipperOffset* self, Group* group, VTok path)
-__CPROVER_requires(self->end_type_ == EndType_Polygon && EXPECTED_ET(group, path.size) == EndType_Polygon && self->norms.size == path.size && SAME_PATH_STATE)
+__CPROVER_requires(self->end_type_ == EndType_Polygon && EXPECTED_ET(group, path.size) == EndType_Polygon && path.size >= 1 /* k = path.size() - 1 */ && self->norms.size == path.size && SAME_PATH_STATE)
 __CPROVER_ensures(g_emits == __CPROVER_old(g_emits) + 1)
 __CPROVER_assigns(self->path_out, g_emits);
 #define OffsetOpenJoined(s_, g_, p_) OffsetOpenJoined__p(s_, &(g_), p_)
@@ -58,7 +58,7 @@ __CPROVER_assigns(self->path_out, self->norms, g_emits);
 void OffsetOpenPath__p(ClipperOffset* self, Group* group, VTok path)
 /* path[0], path[highI], norms[highI], norms[i-1]: path.size >= 1; appends to path_out, which must start empty */
 __CPROVER_requires(self->end_type_ == EXPECTED_ET(group, path.size) && self->end_type_ != EndType_Polygon && self->end_type_ != EndType_Joined)
-__CPROVER_requires(path.size >= 1 && self->norms.size == path.size && self->path_out.size == 0 && SAME_PATH_STATE)
+__CPROVER_requires(path.size >= 2 /* j = highI - 1 must not wrap (contract of OffsetOpenPath, C06_offsetpoint) */ && self->norms.size == path.size && self->path_out.size == 0 && SAME_PATH_STATE)
 __CPROVER_ensures(g_emits == __CPROVER_old(g_emits) + 1)
 __CPROVER_assigns(self->path_out, self->norms, g_emits);
 //@assume A5: callees of DoGroupOffset (BuildNormals, OffsetPolygon, OffsetOpenJoined, OffsetOpenPath, Ellipse, Rect64::AsPath, trigonometry) are stubs; their requires clauses are the obligations DoGroupOffset must meet at each call site. The delta-callback mode (deltaCallback64_ != nullptr) is not covered.
